@@ -264,7 +264,7 @@ func (s *Store) GetEntityByID(_ context.Context, entityID string) (*serviceprovi
 	}
 	if !ok {
 		c.Err = "not found"
-		return nil, fmt.Errorf("service provider %q not registered", entityID)
+		return nil, fmt.Errorf("service provider %s not registered", entityID)
 	}
 	return sp, nil
 }
@@ -280,7 +280,7 @@ func (s *Store) GetEntityIDByAppID(_ context.Context, appID string) (string, err
 	e, ok := s.apps[appID]
 	if !ok {
 		c.Err = "not found"
-		return "", fmt.Errorf("application %q unknown", appID)
+		return "", fmt.Errorf("application %s unknown", appID)
 	}
 	return e, nil
 }
